@@ -579,8 +579,8 @@ func tierBCorpus() []*Pool {
 			Views: []PView{{Name: "default", Attrs: []PEntry{e("a"), e("items"), e("byKey")}},
 				{Name: "tiny", Attrs: []PEntry{e("a"), e("items", "tiny"), e("byKey", "tiny")}}}}},
 		Methods: []PMethod{{Name: "get", Type: "Outer"}}})
-	// witness of the known finding self-reaching-result-type-loses-nested-attributes
-	out = append(out, &Pool{Tag: "corpus:witness-self-reaching", Witness: "self-reaching-result-type-loses-nested-attributes", Types: []*PType{
+	// regression of the repaired constructor defect: a result type that reaches itself through a map
+	out = append(out, &Pool{Tag: "corpus:self-reaching", Types: []*PType{
 		{Name: "R0", Attrs: []PAttr{{Name: "f00", Kind: "str", Req: true}}, Views: []PView{{Name: "default", Attrs: []PEntry{e("f00")}}}},
 		{Name: "R1", Attrs: []PAttr{{Name: "f10", Kind: "int"}, {Name: "f11", Kind: "mapres", Ref: "R1"}, {Name: "f14", Kind: "res", Ref: "R0"}},
 			Views: []PView{{Name: "default", Attrs: []PEntry{e("f10"), e("f11"), e("f14")}}, {Name: "tiny", Attrs: []PEntry{e("f10"), e("f14")}}}},
@@ -598,8 +598,6 @@ func tierBCorpus() []*Pool {
 	return out
 }
 
-var outsideTierB int
-
 // tierBRandomPool: smaller pools than tier A (compile time), always at least one type
 // with several views.
 func tierBRandomPool(r *vh.RNG) *Pool {
@@ -614,12 +612,9 @@ func tierBRandomPool(r *vh.RNG) *Pool {
 				multi = true
 			}
 		}
-		if multi && p.insideTierB() {
+		if multi {
 			p.makeViewBlindSafe()
 			return p
-		}
-		if multi {
-			outsideTierB++
 		}
 	}
 }
@@ -872,19 +867,17 @@ func runTierB(self, out, repo, harnessDir string, rng *vh.RNG, nDesigns, nVals i
 		// ---- direct oracle
 		switch in.Stream {
 		case "witness":
-			// known finding: an undefined view name returned by the service
-			if ob.Resp == nil && ob.ClientErr != nil {
-				failSig(res, "server-undefined-view-panic", fmt.Sprintf("the service returned view %q, which %s does not define: the generated server sent no response (handler panic, connection closed): %s", in.View, t, ob.ClientErr.Message), input)
-			} else if in.Method.Coll && wireOK && ob.ClientErr == nil {
-				if xs, ok := wire.([]any); ok && len(xs) == 0 {
-					failSig(res, "server-undefined-view-empty-collection", fmt.Sprintf("the service returned %d element(s) under view %q, which %s does not define: the generated server answered 200 with goa-view %q and an empty list, which the client accepted", len(in.Value.([]any)), in.View, t, deref(hdr)), input)
-				} else {
-					failSig(res, "server-undefined-view-answered", "the generated server answered a result rendered under a view the type does not define", input)
-				}
-			} else if ob.ClientErr != nil && ob.Resp != nil && ob.Resp.Status >= 400 {
-				res.Count("tierB_witness_server_refused_undefined_view") // the behaviour one would want
-			} else {
-				failSig(res, "server-undefined-view-answered", "the generated server answered a result rendered under a view the type does not define", input)
+			// the service itself returns a view name the type does not define: the generated
+			// endpoint must refuse it (a fault), render nothing, and the client must get an error
+			switch {
+			case ob.Resp == nil:
+				failSig(res, "server-undefined-view-no-response", fmt.Sprintf("the service returned view %q, which %s does not define: the generated server sent no response (handler panic, connection closed): %s", in.View, t, clientFailure(ob)), input)
+			case ob.Resp.Status < 400 || ob.ClientErr == nil:
+				failSig(res, "server-undefined-view-answered", fmt.Sprintf("the service returned view %q, which %s does not define: the generated server answered %d with goa-view %q and the client got %s", in.View, t, ob.Resp.Status, deref(hdr), clientOutcome(ob)), input)
+			case ob.Resp.Status != 500:
+				failSig(res, "server-undefined-view-not-a-fault", fmt.Sprintf("an undefined view returned by the service is reported with status %d (%s), not as a server fault (500)", ob.Resp.Status, ob.ClientErr.Name), input)
+			default:
+				res.Count("tierB_undefined_view_refused_by_server")
 			}
 		case "main":
 			distinct.Add(fmt.Sprintf("%d/%s/%s/%v", in.Design, in.Method.Name, in.View, in.Value))
@@ -900,14 +893,9 @@ func runTierB(self, out, repo, harnessDir string, rng *vh.RNG, nDesigns, nVals i
 			case ob.Resp == nil || ob.Resp.Status != 200 || !wireOK:
 				failSig(res, "server-no-response-for-defined-view", fmt.Sprintf("no 200 response for a valid result under the defined view %q", sel), input)
 			default:
-				selfReach := p.Witness == "self-reaching-result-type-loses-nested-attributes" && !p.insideTierB()
 				if c, wh := diff(p, t, want, wire, "body"); c != "" {
 					input["expected_body"] = want
-					if selfReach && c == "attr-missing" {
-						failSig(res, p.Witness, fmt.Sprintf("response body under view %q: %s at %s: the values nested below a container in a result type that reaches itself lose their result-type attributes (the generated helper transform<T>To<T>View is built from the stripped top-level variant of T)", sel, c, wh), input)
-					} else {
-						failSig(res, "wire-"+c, fmt.Sprintf("response body under view %q: %s at %s", sel, c, wh), input)
-					}
+					failSig(res, "wire-"+c, fmt.Sprintf("response body under view %q: %s at %s", sel, c, wh), input)
 				}
 				if in.fixed == "" {
 					if hdr == nil || *hdr != sel {
@@ -924,11 +912,7 @@ func runTierB(self, out, repo, harnessDir string, rng *vh.RNG, nDesigns, nVals i
 					failSig(res, "client-error-on-valid-response", fmt.Sprintf("client returned %s: %s for a valid result under view %q", ob.ClientErr.Name, ob.ClientErr.Message, sel), input)
 				} else if c, wh := diff(p, t, want, client, "result"); c != "" {
 					input["expected_result"], input["client_result"] = want, client
-					if selfReach && c == "attr-missing" {
-						failSig(res, p.Witness, fmt.Sprintf("client result under view %q: %s at %s", sel, c, wh), input)
-					} else {
-						failSig(res, "client-"+c, fmt.Sprintf("client result under view %q: %s at %s", sel, c, wh), input)
-					}
+					failSig(res, "client-"+c, fmt.Sprintf("client result under view %q: %s at %s", sel, c, wh), input)
 				}
 			}
 			res.Sample(map[string]any{"method": in.Method, "view": in.View, "value": in.Value, "wire": input["wire"], "client": client}, 4)
@@ -955,10 +939,7 @@ func runTierB(self, out, repo, harnessDir string, rng *vh.RNG, nDesigns, nVals i
 			}
 		}
 
-		// ---- correspondence case (the model does not exhibit the aliasing of the self-reaching finding)
-		if p.Witness == "self-reaching-result-type-loses-nested-attributes" {
-			continue
-		}
+		// ---- correspondence case
 		lt := leafTab{}
 		xval := coqVal(p, t, in.Value, lt)
 		fixedTerm := "None"
@@ -1003,7 +984,6 @@ func runTierB(self, out, repo, harnessDir string, rng *vh.RNG, nDesigns, nVals i
 		}
 	}
 	res.Extra["tierB_distinct"] = len(distinct)
-	res.Dist["tierB_random_pools_outside_envelope_skipped"] = outsideTierB
 	return cases, caseInfo, nil
 }
 
@@ -1130,4 +1110,11 @@ func screenPools(self, dir, repo string, pools []*Pool) (alive []bool, died map[
 		from = last + 1 // the pool that was running when the child died stays dead
 	}
 	return alive, died
+}
+
+func clientOutcome(ob *rt.Obs) string {
+	if f := clientFailure(ob); f != "" {
+		return f
+	}
+	return "a result"
 }
